@@ -113,6 +113,11 @@ def run_stream(workdir, header, case_lines, proj, oracles, sr, tag, spec_fields=
                 sr.inconclusive += 1       # not run: the job had already timed out repeatedly
             elif ik == "timeout" and mk in ("oof", "modeltimeout"):
                 sr.inconclusive += 1       # both sides did not terminate
+            elif ik == "timeout" and mk in ("ret", "panic") and _model_cnt(ml) > EXPENSIVE_CNT:
+                # the model did return, after millions of expression evaluations (exponential backtracking on this
+                # input): the 10 s watchdog of the host says nothing about termination here
+                sr.inconclusive += 1
+                sr.stats["timeouts_on_expensive_cases"] = sr.stats.get("timeouts_on_expensive_cases", 0) + 1
             elif inconclusive(ik) != inconclusive(mk) and not (mk == "oof"):
                 sr.disagree.append((cl, il, ml, "one side terminates, the other does not (%s vs %s)" % (ik, mk)))
             else:
@@ -155,6 +160,18 @@ def run_stream(workdir, header, case_lines, proj, oracles, sr, tag, spec_fields=
                 sr.nontrivial += 1
         if len(sr.samples) < 3 and new:
             sr.samples.append({"case": cl[:600], "impl": il[:400]})
+
+# a parse that needs more expression evaluations than this is not expected to finish within the host's watchdog
+# (the real runtime evaluates roughly 2-10 million expressions per second, depending on the variant)
+EXPENSIVE_CNT = 3_000_000
+
+
+def _model_cnt(ml):
+    try:
+        return core.parse_result(ml)["cnt"]
+    except Exception:
+        return 0
+
 
 def confirm_timeouts(header, sr, limit=6):
     """A lone timeout of the implementation (10 s wall clock in the host) can be an artefact of an overloaded
